@@ -209,6 +209,17 @@ class Gen:
         if r < 0.78 and self.allow_array:
             h = self.fresh("a")
             shape = rng.choice([[2], [3], [2, 2], [1, 3]])
+            if rng.random() < 0.3:
+                # an empty array filled entry by entry, not in index order (every entry its own parameter or a constant)
+                self.prog.append({"op": "array", "h": h, "shape": shape, "prior": None})
+                import itertools
+                idxs = [list(t) for t in itertools.product(*[range(n_) for n_ in shape])]
+                rng.shuffle(idxs)
+                all_free = rng.random() < 0.6
+                for idx in idxs:
+                    self.prog.append({"op": "array_set", "h": h, "index": idx,
+                                      "value": {"h": self.new_prior()} if all_free or rng.random() < 0.7 else _finite(rng)})
+                return h
             self.prog.append({"op": "array", "h": h, "shape": shape, "prior": {"h": self.pick_prior()}})
             if rng.random() < 0.5:
                 idx = [rng.randrange(s) for s in shape]
@@ -364,7 +375,7 @@ def run_program(prog, upto=None):
             ops = [val(st["x"])]
             H[st["h"]] = UNOPS[st["uop"]](ops[0])
         elif op == "array":
-            H[st["h"]] = af.Array(tuple(st["shape"]), val(st["prior"]))
+            H[st["h"]] = af.Array(tuple(st["shape"]), val(st["prior"])) if st.get("prior") is not None else af.Array(tuple(st["shape"]))
         elif op == "array_set":
             H[st["h"]][tuple(st["index"])] = val(st["value"])
         elif op == "assert":
